@@ -57,6 +57,9 @@ func (check) SelfCheck() error {
 		coll(ref.File)
 		for _, f := range pr.p.Files {
 			rf := files[f.Path]
+			if rf == nil && len(pr.p.ImportDirs) > 0 {
+				continue // shadowed by a file found earlier on the search path, or loaded under its import name
+			}
 			if rf == nil {
 				return fmt.Errorf("%s: file %s not loaded by the reference parser", pr.p.Name, f.Path)
 			}
